@@ -37,8 +37,9 @@ class KeyEval:
     """symbolic value of a Derivative-typed operand inside a cache function:
     ('p', n)  = the n-th Derivative parameter;  ('min',) / ('max',) of both parameters; None = unknown"""
 
-    def __init__(self, body):
+    def __init__(self, body, F=None):
         self.body = body
+        self.F = F
         self.defs = Defs(body)
         self.dparams = [l for l in range(1, body["arg_count"] + 1) if body.lty(l)["s"].endswith("Derivative")]
 
@@ -94,6 +95,8 @@ class KeyEval:
             if l is None:
                 return None
             d = _single_def(self.defs, l)
+            if d is not None and d[0] == "call" and self.F is not None:
+                return self._key_from_constructor(d[2])
             if d is None or d[0] != "stmt":
                 return None
             rv = d[4]
@@ -117,6 +120,44 @@ class KeyEval:
             else:
                 return None
         return None
+
+    def _key_from_constructor(self, t):
+        """key built by a constructor function of the repository (`PartialDerivative::second(d1, d2)`): evaluate the
+        constructor's own aggregates in terms of its parameters, then substitute the call's arguments"""
+        cb = self.F.callee_body(t)
+        if cb is None or cb.is_closure() or not cb.path.startswith("feos_core::") or len(cb.blocks) > 30 \
+                or not (cb.lty(0) or {}).get("s", "").endswith("PartialDerivative"):
+            return None
+        ke2 = KeyEval(cb, None)
+        alts = []
+        for bi, si, st in cb.stmts():
+            rv = st["rv"]
+            if rv["k"] == "agg" and rv["kind"].get("t") == "adt" and rv["kind"]["adt"].endswith("PartialDerivative"):
+                alts.append((rv["kind"]["variant"], [ke2.op(o) for o in rv["ops"]]))
+        if not alts or len({a[0] for a in alts}) != 1 or any(x is None for a in alts for x in a[1]):
+            return None
+        if any(callee(t2)[2] not in ("min", "max", "lt", "le", "gt", "ge", "cmp", "partial_cmp", "eq", "ne") for _bi, t2 in cb.calls()):
+            return None
+        variant = alts[0][0]
+        if len(alts) == 1:
+            inner = alts[0][1]
+        elif len(alts) == 2 and variant == "SecondMixed" and alts[0][1] == alts[1][1][::-1] and sorted(alts[0][1], key=str) == [("p", 1), ("p", 2)]:
+            inner = [("sorted", 0), ("sorted", 1)]
+        else:
+            return None
+        argv = {i + 1: self.op(t["args"][cb_l - 1]) for i, cb_l in enumerate(ke2.dparams) if cb_l - 1 < len(t["args"])}
+        both = [argv.get(1), argv.get(2)]
+        out = []
+        for x in inner:
+            if x[0] == "p":
+                out.append(argv.get(x[1]))
+            elif both[0] is not None and both[0] == both[1] and both[0][0] == "p":
+                out.append(both[0])                # min / max / sorted component of (d, d) is d
+            elif sorted(both, key=str) == [("p", 1), ("p", 2)]:
+                out.append(x)
+            else:
+                out.append(None)
+        return variant, out
 
     def part(self, op):
         """(value_local, adt, field) of an f64 operand that is a part of a dual value, or ('whole', local)"""
@@ -171,7 +212,7 @@ def run(F):
             r.fail("missing|" + fn, "-", "cache function %s not found" % fn)
             continue
         b = bs[0]
-        ke = KeyEval(b)
+        ke = KeyEval(b, F)
         inserts, gets = [], []
         for bi, t in b.calls():
             p, tr, name = callee(t)
